@@ -305,8 +305,10 @@ class StackWorld(object):
           REC.violation('C13', 'deadline_context_wrong',
                         'call %s: deadline context %d ns, call deadline %d ns' % (r.call_id, d, want_d),
                         {'before_open': c.before_open})
+        # the timestamp is taken (in whole seconds) when the request is
+        # serialized, i.e. between the call being issued and the frame arriving
         now_ns = CLOCK.now * 1e9
-        if not (now_ns - 2e9 <= ts <= now_ns + 1e6):
+        if not ((math.floor(c.t) - 1) * 1e9 <= ts <= now_ns + 1e6):
           REC.violation('C13', 'deadline_timestamp_wrong',
                         'call %s: deadline context timestamp %d ns at time %d ns' % (r.call_id, ts, now_ns))
     elif dl is not None:
@@ -387,11 +389,17 @@ class StackWorld(object):
     snap_closed = [r for r in self.resurrectors]
     all_down = None
     if self.closed_at is None and self.balancers and self.resurrectors:
+      # every member the balancer is using is down (its resurrector reports
+      # Closed) and, for the aperture, there is no idle member to fall back on
       lb = self.balancers[0]
-      if lb.state == ChannelState.Open:
-        cur = self._current_resurrectors()
-        if cur:
-          all_down = all(r.state == ChannelState.Closed for r in cur)
+      try:
+        nodes = lb._heap[1:]
+        idle = list(getattr(lb, '_idle_endpoints', ()))
+      except AttributeError:
+        nodes, idle = [], [None]
+      if nodes and not idle:
+        all_down = all(n.channel in self.resurrectors and n.channel.state == ChannelState.Closed
+                       for n in nodes)
     if op.get('via') == 'proxy' and self.closed_at is None:
       fn = getattr(self.client, m + '_async')
       c = self.tracker.issue(None, cid, m, args, timeout=None, spec=op, fn=lambda: fn(*args))
